@@ -307,6 +307,49 @@ class Ctx:
         return self.lean.drive(lines)
 
 
+class ProbeCtx:
+    """a throw-away context used while shrinking: records violations, nothing else"""
+
+    def __init__(self, ctx):
+        self.rng = ctx.rng
+        self.tier = ctx.tier
+        self.lean = ctx.lean
+        self.violations = []
+        self.scale = ctx.scale
+
+    def violate(self, what, case, tags=None):
+        self.violations.append({"what": what, "case": case, "tags": tags or {}})
+
+    def count(self, *a, **k):
+        pass
+
+    def case(self, *a, **k):
+        pass
+
+    def disagree(self, *a, **k):
+        pass
+
+
+def shrink_ops(ops, still_fails, max_rounds=6):
+    """delta-debugging light: drop chunks, then single operations, while the failure persists"""
+    ops = list(ops)
+    for _ in range(max_rounds):
+        changed = False
+        n = len(ops)
+        for size in (max(1, n // 2), max(1, n // 4), 1):
+            i = 0
+            while i < len(ops) and len(ops) > 1:
+                cand = ops[:i] + ops[i + size:]
+                if cand and still_fails(cand):
+                    ops = cand
+                    changed = True
+                else:
+                    i += size
+        if not changed:
+            break
+    return ops
+
+
 def load_known():
     f = VERIF / "known_findings.json"
     if not f.exists():
